@@ -1,6 +1,6 @@
 (* C08 - every inbound QoS>0 PUBLISH and PUBREL is acknowledged exactly once, with its
    identifier, in arrival order; nothing is written for QoS 0 or any other packet. *)
-From Poster Require Import Model.Client Proofs.ClientP.
+From Poster Require Import Model.Sim Proofs.ClientP Proofs.QuotaP Proofs.ResumeP Proofs.WireP Proofs.FramingMainP Proofs.SimInvP Proofs.SettleP Proofs.RefineP Proofs.TraceP.
 
 (* what the property says must be written for one inbound packet (written from the statement) *)
 Definition C08_ack_for (p : rxpkt) : bytes :=
@@ -41,3 +41,36 @@ Example C08_nonvacuous :
      mkrx KPubrel false false false 0 9 0 [] [] [] []])
   = [64; 2; 0; 7; 80; 2; 0; 9; 112; 2; 0; 9].
 Proof. vm_compute. reflexivity. Qed.
+
+(* ---- from the transport's bytes to the acknowledgements on the wire -------------------------------------------------------
+   TraceP.trace fuel s: the history one poll of the Context task takes - inbound packets and queued requests in the
+   order the run loop handles them. (1) The loop is the run of Context steps over exactly that history, so with a
+   healthy writer what it adds to the wire is WireP.spec_wire of it: for every packet handled, the acknowledgement
+   C08_ack_for says, in order, and the requests that are not refused. (2) The packets in it are exactly the frames the
+   framing layer cuts from the bytes available (FramingMainP.drain; they are the reference frames of the byte stream:
+   C03_drain), in order, decoded. *)
+Theorem C08_end_to_end : forall s : sys, cph s = CRunning -> hold s = false -> ctx_alive s = true -> wbudget s = None ->
+  let evs := trace (settle_fuel s) s in
+  wire_ev (settle s) = wire_ev s ++ spec_wire s evs /\
+  exists n, Forall2 (fun p bs => dec_packet bs = Ok p) (pkts evs) (firstn (length (pkts evs)) (fst (drain n (fr s) (rd s)))).
+Proof.
+  intros s Hc Hh Ha Hb. cbv zeta. split.
+  - unfold settle. rewrite Hh, Ha. cbn [orb negb]. destruct (settle_loop_trace (settle_fuel s) s Hc) as [Hv _].
+    assert (Hw : wire_ev (settle_loop (settle_fuel s) s) = wire_ev (run_q s (trace (settle_fuel s) s))) by (unfold view in Hv; congruence).
+    rewrite Hw. apply wire_history. exact Hb.
+  - apply trace_frames. exact Hc.
+Qed.
+Print Assumptions C08_end_to_end.
+Check (eq_refl : pkts = fun evs => flat_map (fun e => match e with QPkt p => [p] | QMsg _ => [] end) evs).
+
+(* two packets in one read, a QoS 2 PUBLISH split over two reads behind them, a request queued meanwhile *)
+Example C08_end_to_end_nonvacuous :
+  let s0 := final_state sys_init
+    [EConnect (Build_connect_opts [99] 0 None None None None None None None None [] 0 false false
+                 None None None None None None [] None None None None);
+     EDeliver [32; 3; 0; 0; 0]; ERun; EHold;
+     EDeliver [48; 4; 0; 1; 116; 0; 50; 6; 0; 1; 116; 0; 7; 0; 52; 6; 0]; EDeliver [1; 116; 0; 9; 0; 98; 2; 0; 9]] in
+  let s := set_hold (begin_ev s0) false in
+  cph s = CRunning /\ wbudget s = None /\ lenN (pkts (trace (settle_fuel s) s)) = 4 /\
+  wire_ev (settle s) = [64; 2; 0; 7; 80; 2; 0; 9; 112; 2; 0; 9].
+Proof. vm_compute. auto. Qed.
